@@ -180,5 +180,24 @@ for k in range(12):
     flags = ["-", "S", "E", "SE"][k % 4]
     iface(f"r{k}", flags, 10 if "E" in flags else 0, "basic", rand_set(rng, 6 + k))
 
-open(os.path.join(os.path.dirname(__file__), "ifaces.txt"), "w").write("\n".join(lines) + "\n")
-print(len([l for l in lines if l.startswith("IFACE")]), "interfaces,", len([l for l in lines if l.startswith("DECL")]), "declarations")
+def fresh(seed, path, n=8):
+    """n fresh random interfaces f0..f(n-1) (thorough tier: the real macro and the model on declaration sets
+    that no earlier run has seen), written to `path`."""
+    global lines
+    saved, lines = lines, []
+    try:
+        rng = random.Random(seed)
+        for k in range(n):
+            flags = ["-", "S", "E", "SE"][rng.randrange(4)]
+            iface(f"f{k}", flags, rng.choice([1, 2, 3, 4, 10]) if "E" in flags else 0, "basic", rand_set(rng, rng.randint(4, 18)))
+        open(path, "w").write("\n".join(lines) + "\n")
+    finally:
+        lines = saved
+
+
+if __name__ == "__main__":
+    if len(sys.argv) == 4 and sys.argv[1] == "--fresh":
+        fresh(int(sys.argv[2]), sys.argv[3])
+    else:
+        open(os.path.join(os.path.dirname(__file__), "ifaces.txt"), "w").write("\n".join(lines) + "\n")
+        print(len([l for l in lines if l.startswith("IFACE")]), "interfaces,", len([l for l in lines if l.startswith("DECL")]), "declarations")
